@@ -1,5 +1,6 @@
 """C11 — tick values stay integers through every operation."""
 import gens as G
+import h4seq_util as U
 import histories as H
 import pyimpl as P
 from oracle_util import *  # noqa
@@ -84,26 +85,42 @@ def o_history(inp):
             p_.quantise_and_normalise()
         except Exception:
             pass
+    ops = [_norm_op(tuple(op)) for op in inp["ops"]]
+
+    def replay(n):
+        q = P.make_seq(init)
+        pieces = None
+        for op in ops[:n]:
+            pieces = None
+            try:
+                q, _, pieces = U.seq_step(q, op)
+            except Exception:
+                pass
+        return q, pieces
     s = P.make_seq(init)
     fails = []
-    for i, op in enumerate(inp["ops"]):
-        op = _norm_op(tuple(op))
+    for i, op in enumerate(ops):
         try:
-            res = P._seq_step(s, op)
-            s = res[0]
+            s, _, pieces = U.seq_step(s, op)
         except Exception:
             continue
+        # the object itself, looked at without calling anything on it (whatever view is fresh right now) ...
+        a_, r_ = U.peek(s)
+        f = int_fail(f"after op {i} {op[0]} .abs", a_ or []) + int_fail(f"after op {i} {op[0]} .rel", r_ or [])
+        if f:
+            return f
+        # ... and BOTH views of a twin (same construction, same history), read through its own properties — not through copy()
         try:
-            f = check_seq(f"after op {i} {op[0]}", s.copy())
+            twin, tw_pieces = replay(i + 1)
+            f = check_seq(f"after op {i} {op[0]}", twin)
         except Exception:
             f = []
         if f:
             return f
-        if op[0] == "split":
-            for p in s.split(list(op[1])):
-                f = check_seq("split piece", p)
-                if f:
-                    return f
+        for p in (pieces or []):
+            f = check_seq("split piece", p)
+            if f:
+                return f
     # bars / composition / tokeniser on the result
     try:
         q = s.copy()
@@ -126,7 +143,10 @@ def o_history(inp):
     except Exception:
         pass
     try:
-        cfg = P.TkCfg(num_tracks=2, pitch_range=(0, 127), velocity_bins=inp.get("bins", 4), fuse_value=inp.get("fuse_value", True))
+        if inp.get("cfg"):
+            cfg = P.TkCfg(**{k: (tuple(v) if isinstance(v, list) and k in ("pitch_range", "ts_range") else v) for k, v in inp["cfg"].items()})
+        else:
+            cfg = P.TkCfg(num_tracks=2, pitch_range=(0, 127), velocity_bins=inp.get("bins", 4), fuse_value=inp.get("fuse_value", True))
         tk = cfg.tk()
         sd = {}
         toks = []
@@ -202,16 +222,28 @@ def generate(ctx):
     rng = ctx.rng
     for i in range(ctx.n(120, 2500)):
         init = H.gen_init(rng)
-        ops = H.gen_history(rng, rng.randint(0, 6 if not ctx.thorough else 12), reads=False)
+        ops = H.gen_history(rng, rng.randint(0, 6 if not ctx.thorough else 12), reads=False, ext=U.gen_ext_op, ext_p=0.2)
+        if rng.random() < 0.5:
+            # integer scaling by any k in 1..8, either way of calling it (the shared alphabet only draws 1..3)
+            ops.insert(rng.randint(0, len(ops)), ("scale", rng.randint(1, 8), rng.random() < 0.5))
         ctx.case((init, ops), len(ops) >= 2)
         for o in ops:
-            ctx.count("op:" + o[0])
-        inp = {"init": init, "ops": ops, "requant": rng.random() < 0.5, "bins": rng.choice([1, 4, 8]), "fuse_value": rng.random() < 0.5}
+            ctx.count("op:" + o[0] + (":k>3" if o[0] == "scale" and o[1] > 3 else ""))
+        # tokeniser configurations: every flag, bin count, both pitch ranges, a custom step / value list now and then
+        cfg = {"num_tracks": 2, "pitch_range": rng.choice([[0, 127], [0, 127], [21, 108]]), "velocity_bins": rng.choice([1, 2, 4, 5, 8, 16]),
+               "running": rng.random() < 0.5, "fuse_track": rng.random() < 0.5, "fuse_value": rng.random() < 0.5, "fuse_velocity": rng.random() < 0.5,
+               "simplify_ts": rng.random() < 0.5}
+        if rng.random() < 0.3:
+            # (supersets of the defaults: the piece is quantised with the default lists before it is tokenised)
+            cfg["step_sizes"] = rng.choice([[2, 3, 4, 6, 8, 12, 16, 24], [24, 12, 6, 16, 8, 4, 48], [4, 6, 8, 12, 16, 24, 96]])
+            cfg["note_values"] = rng.choice([[24, 12, 6, 16, 8, 4, 36, 18, 9, 48], [3, 4, 6, 8, 9, 12, 16, 18, 24, 36, 96], [24, 12, 6, 16, 8, 4, 36, 18, 9, 72, 2]])
+        ctx.count("tokeniser-config:" + ("custom-lists" if "step_sizes" in cfg else "default-lists"))
+        inp = {"init": init, "ops": ops, "requant": rng.random() < 0.5, "cfg": cfg}
         ctx.check("history", inp)
         if i % 3 == 0:
             ctx.count("process-polluted-with-floats-before")
             ctx.check("history", dict(inp, pollute=[rng.choice([0.5, 0.25]), 2.0]))
-        ctx.corr("seq", P.op_seq(init, ops + [("readAbs",), ("readRel",)]))
+        ctx.corr("seq", P.op_seq(init, U.driver_history(ops) + [("readAbs",), ("readRel",)]))
         # short bars and unequal tracks: typed correspondence of bar construction / splitting
         rel, _ = G.gen_wf_rel(rng, max_tick=40, max_dur=12, channels=(0,))
         rel = [m for m in rel if m[0] != TIMESIG]
